@@ -74,7 +74,12 @@ func (t *_ticker) run() {
 
 		case <-t.resetch:
 			if !timer.Stop() {
-				<-timer.C
+				// the timer may have fired and its value may already have been
+				// consumed (a tick is pending): drain without blocking.
+				select {
+				case <-timer.C:
+				default:
+				}
 			}
 			timer.Reset(t.nextPeriod())
 			nextch = nil
